@@ -1,10 +1,11 @@
 #!/bin/bash
-# usage: run_all.sh [quick|thorough] [ids...] - runs every property check in turn, one summary line each
+# usage: run_all.sh [quick|thorough] [--no-evidence] [ids...] - runs every property check in turn, one summary line each
 T=${1:-quick}; shift
+NE=""; if [ "$1" = "--no-evidence" ]; then NE="--no-evidence"; shift; fi
 IDS=${@:-C01 C02 C03 C04 C05 C06 C07 C08 C09 C10 C11 C12 C13 C14 C15 C16 C17 C18 C19 C20}
 cd /verif
 for p in $IDS; do
-  s=$(date +%s); out=$(./check $p --tier $T 2>&1); rc=$?; e=$(date +%s)
+  s=$(date +%s); out=$(./check $p --tier $T $NE 2>&1); rc=$?; e=$(date +%s)
   echo "$p rc=$rc $((e-s))s $(echo "$out" | grep '^SUMMARY' | cut -c1-160)"
   echo "$out" | grep -E '^(VIOLATION|UNDECIDED|KNOWN|ERROR|TIMEOUT|FAIL)' | cut -c1-250
 done
